@@ -43,15 +43,22 @@ type c09PipeOut struct {
 	// Overtaken: the read that timed out had begun so early that its period ended before the writer
 	// (delayed by the machine) had made its last write: the scenario says nothing and is set aside
 	Overtaken bool `json:"overtaken"`
+	// FrozenMs: the process was not scheduled for that long during (both attempts of) the scenario
+	FrozenMs int64 `json:"frozenMs"`
 }
 
 const c09PipePatience = 2 * time.Second
 
 func init() {
 	gen.RegisterOp("c09", "pipe", func(c *gen.Ctx, raw json.RawMessage) any {
-		out := c09Pipe(gen.Into[c09PipeIn](raw))
+		in := gen.Into[c09PipeIn](raw)
+		out, frozen := c09Steady(time.Second, func() c09PipeOut { return c09Pipe(in) })
+		out.FrozenMs = frozen
 		if out.Overtaken {
 			c.E.Count("pipe:set-aside-overtaken")
+		}
+		if frozen > 0 {
+			c.E.Count("pipe:set-aside-machine-stalled")
 		}
 		return out
 	})
